@@ -87,7 +87,7 @@ func c02Gen(c *core.Ctx) {
 	pairs := map[string]int{}
 	for i := 0; i < n; i++ {
 		r := c.Rand("prog", int64(i))
-		o := gen.Options{Budget: 4 + r.IntN(14), Heredocs: i%3 == 0, Flat: i%5 == 1}
+		o := gen.Options{Budget: 4 + r.IntN(14), Heredocs: i%3 == 0, Flat: i%5 == 1, LeadHD: i%7 == 3}
 		if i%40 == 7 {
 			o.Budget = 60 + r.IntN(200)
 		}
